@@ -8,7 +8,7 @@
 From Coq Require Import NArith List Bool String.
 From Verif Require Import Base.Chars Base.StrX Imports.Import Imports.ImportSet Imports.Format Imports.ImportLex
                           Imports.ImportProofs Imports.ImportLexProofs Imports.ImportSetProofs
-                          Imports.FormatProofs Imports.RoundTripProofs.
+                          Imports.FormatProofs Imports.RoundTripProofs Imports.WidthProofs.
 Import ListNotations.
 
 (* generic lexer lemma: rendering a token list with separators from {runs of >= 1 spaces, backslash-newline,
@@ -52,6 +52,28 @@ Print Assumptions C11_from_split_split.
 Theorem C11_from_imports_wf : forall b l, Forall wf_import l -> wf_set (from_imports b l).
 Proof. exact from_imports_wf. Qed.
 Print Assumptions C11_from_imports_wf.
+
+(* width.  The literal clause of the property
+     forall P S out l, print_set P S = Some out -> In l (lines_of out) -> length l > width_of P -> alias_tokens_on l = 1
+   is FALSE of the code (F17, known finding): width_literal_refuted exhibits an over-long head line that carries
+   no imported name.  width_partial is the exact disjunction: the text is exactly a list of physical lines
+   (each tagged with the number of aliases it carries and with its statement), and a line longer than the width
+   carries exactly one alias, or carries none and is a head line (ends with `(` or with a backslash), or belongs
+   to a statement for which Python has no parenthesised form (plain `import ...`, `from m import *`). *)
+Theorem C11_width_partial : forall P S out, print_set P S = Some out ->
+  exists lines : list (pline * stmt),
+    out = text_of (map fst lines) /\
+    Forall (fun x => In (snd x) (get_statements (separate_from_imports P) S) /\
+                     (width_of P < List.length (fst (fst x)) ->
+                        snd (fst x) = 1 \/ (snd (fst x) = 0 /\ head_line_shape (fst (fst x))) \/ unwrappable (snd x))) lines.
+Proof. exact width_partial. Qed.
+Print Assumptions C11_width_partial.
+
+Theorem C11_width_literal_refuted :
+  exists P S out l, wf_set S /\ print_set P S = Some out /\ In l (split_on c_nl out) /\
+    (width_of P < List.length l)%nat /\ l = dec "from aaaaaaaaaaaaaaaaaaaaaaaaaaaaaaa import ("%string.
+Proof. exact width_literal_refuted. Qed.
+Print Assumptions C11_width_literal_refuted.
 
 (* non-vacuity: a concrete set (from-imports with aliases, plain, aliased plain, relative star, __future__)
    satisfies the hypotheses and is printed with wrapped, parenthesised statements *)
